@@ -171,6 +171,34 @@ Theorem C13_new_comps_abs_simple : forall (done todo lc : list str),
   is_abs Linux (abs_path lc) = true /\ new_comps done todo (abs_path lc) = lc ++ todo.
 Proof. exact new_comps_abs_simple. Qed.
 
+(* ---- paths as component lists: abs_path / path_comps ------------------------ *)
+Theorem C13_path_comps_abs_path : forall cs, Forall comp_ok cs -> path_comps (abs_path cs) = cs.
+Proof. exact path_comps_abs_path. Qed.
+
+Theorem C13_abs_path_inj : forall cs cs',
+  Forall comp_ok cs -> Forall comp_ok cs' -> abs_path cs = abs_path cs' -> cs = cs'.
+Proof. exact abs_path_inj. Qed.
+
+(* Clean of any absolute path, on components *)
+Theorem C13_clean_abs_comps : forall p,
+  is_abs Linux p = true ->
+  clean Linux p = abs_path (norm true [] (path_comps p)) /\ Forall good_comp (norm true [] (path_comps p)).
+Proof. exact clean_abs_comps. Qed.
+
+Theorem C13_clean_abs_path_fix : forall cs, Forall good_comp cs -> clean Linux (abs_path cs) = abs_path cs.
+Proof. exact clean_abs_path_fix. Qed.
+
+(* Join of a clean absolute base with any path / with a clean absolute path *)
+Theorem C13_join_abs_any : forall (bs : list str) (p : str),
+  Forall good_comp bs ->
+  join Linux [abs_path bs; p] = abs_path (norm true (rev bs) (path_comps p)).
+Proof. exact join_abs_any. Qed.
+
+Theorem C13_join_abs_abs : forall bs ps,
+  Forall good_comp bs -> Forall good_comp ps ->
+  join Linux [abs_path bs; abs_path ps] = abs_path (bs ++ ps).
+Proof. exact join_abs_abs. Qed.
+
 (* non-vacuity: "/a/b/c", cursor on "b"; link "../x" gives "/x/c" and a reset,
    link "y/z" gives "/a/y/z/c" and resumes after "/a" *)
 Example C13_example_iter :
